@@ -16,7 +16,7 @@ static FIRST_SUMMARY: Mutex<BTreeMap<String, String>> = Mutex::new(BTreeMap::new
 fn find(fams: &[Family], fam: &str, label: &str) -> Scenario {
     let f = fams.iter().find(|f| f.name == fam).unwrap_or_else(|| panic!("family {} not found", fam));
     let s = f.scenarios.iter().find(|s| s.label == label).unwrap_or_else(|| panic!("scenario {} not found in {}", label, fam));
-    Scenario { spec: s.spec.clone(), cmds: s.cmds.clone(), label: s.label.clone() }
+    Scenario { spec: s.spec.clone(), cmds: s.cmds.clone(), label: s.label.clone(), prelude: None }
 }
 
 fn sim_item(
@@ -34,8 +34,8 @@ fn sim_item(
     // on the single-threaded executor.
     let mut spec_st = spec.clone();
     spec_st.threads = 1;
-    let sc_st = Arc::new(Scenario { spec: Arc::new(spec_st), cmds: sc.cmds.clone(), label: sc.label.clone() });
-    let sc = Arc::new(Scenario { spec: Arc::new(spec), cmds: sc.cmds, label: sc.label });
+    let sc_st = Arc::new(Scenario { spec: Arc::new(spec_st), cmds: sc.cmds.clone(), label: sc.label.clone(), prelude: None });
+    let sc = Arc::new(Scenario { spec: Arc::new(spec), cmds: sc.cmds, label: sc.label, prelude: None });
     let key = name.clone();
     let key2 = name.clone();
     let prepare = move || {
